@@ -15,6 +15,7 @@ type verifChanCodec struct {
 	in, out chan *Message
 	addr    string
 	written int
+	broken  bool // the outgoing direction is gone: every write fails (a reset socket)
 }
 
 func (c *verifChanCodec) ReadMessage() (*Message, error) {
@@ -24,7 +25,14 @@ func (c *verifChanCodec) ReadMessage() (*Message, error) {
 	}
 	return m, nil
 }
-func (c *verifChanCodec) WriteMessage(m *Message) error { c.written++; c.out <- m; return nil }
+func (c *verifChanCodec) WriteMessage(m *Message) error {
+	if c.broken {
+		return errors.New("write: broken pipe")
+	}
+	c.written++
+	c.out <- m
+	return nil
+}
 func (c *verifChanCodec) Close() error                  { return nil }
 func (c *verifChanCodec) RemoteAddr() string            { return c.addr }
 
@@ -334,12 +342,27 @@ func VerifC14IDs() {
 			out <- string(m.ID)
 		}()
 	}
+	// meanwhile a request whose parameters cannot be encoded (a channel) fails to be built
+	bad := verifapi.Param("badparams", 0)
+	failed := make(chan error, bad+1)
+	for i := 0; i < bad; i++ {
+		go func() {
+			_, err := c.Request("m", make(chan int))
+			failed <- err
+		}()
+	}
 	seen := map[string]bool{}
 	for i := 0; i < n; i++ {
 		id := <-out
 		verifapi.Assert(!seen[id], "c14.request-ids-distinct")
 		seen[id] = true
 	}
+	for i := 0; i < bad; i++ {
+		verifapi.Assert(<-failed != nil, "c14.unencodable-request-refused")
+	}
+	// ids handed out later are new as well
+	m, err := c.Request("m", 1)
+	verifapi.Assert(err == nil && !seen[string(m.ID)], "c14.request-ids-distinct")
 	verifapi.Reach("c14.ids")
 }
 
@@ -410,4 +433,48 @@ func VerifC14Local() {
 	verifapi.Reach("c14.local")
 	verifapi.Assert(svc.ctxOK, "c14.handler-context-is-arrival-connection")
 	verifapi.Assert(len(svc.seen) == handled, "c14.request-handled-exactly-once")
+}
+
+// VerifC14WriteFault: the outgoing direction of a connection breaks for a
+// while (writes fail), then works again: a call made meanwhile fails with the
+// write error and leaves nothing behind - the calls made before and after it
+// get their own replies, requests of the other side are still handled, and
+// nothing on the connection hangs.
+func VerifC14WriteFault() {
+	a, b, _, hb := verifPair()
+	codec := a.Codec.(*verifChanCodec)
+	t0, t1, t2 := verifapi.Int64("token0"), verifapi.Int64("token1"), verifapi.Int64("token2")
+	var got int64
+	if verifapi.Bool("call-before") {
+		err := a.Call(context.Background(), &got, "echo", t0)
+		verifapi.Assert(err == nil && got == t0, "c14.call-returns-own-reply")
+	}
+	codec.broken = true
+	failed := verifapi.Param("failedcalls", 1)
+	for i := 0; i < failed; i++ {
+		err := a.Call(context.Background(), &got, "echo", t1)
+		verifapi.Assert(err != nil, "c14.fault.unsent-call-fails")
+	}
+	a.mu.Lock()
+	verifapi.Assert(len(a.pending) == 0, "c14.no-pending-left")
+	a.mu.Unlock()
+	codec.broken = false
+	// the other side calls in, and this side calls out again
+	done := make(chan error, 1)
+	go func() {
+		var back int64
+		err := b.Call(context.Background(), &back, "echo", t2)
+		if err == nil {
+			verifapi.Assert(back == t2, "c14.call-returns-own-reply")
+		}
+		done <- err
+	}()
+	err := a.Call(context.Background(), &got, "echo", t1)
+	verifapi.Assert(err == nil && got == t1, "c14.fault.later-call-gets-own-reply")
+	verifapi.Assert(<-done == nil, "c14.fault.other-side-still-served")
+	verifapi.Quiesce()
+	verifapi.Reach("c14.fault")
+	for _, cnt := range hb.handled {
+		verifapi.Assert(cnt == 1, "c14.request-handled-exactly-once")
+	}
 }
